@@ -179,6 +179,11 @@ def install(eng):
     @reg('len')
     def _len(eng, st, args, kw, node):
         v = args[0]
+        from .engine import AbsSet
+        if isinstance(v, AbsSet):
+            n = z3.Int(uid('setlen'))
+            st.assume(z3.If(to_bool_term(v.empty), n == 0, n >= 1))
+            return one(st, n)
         if isinstance(v, DictVal):
             return one(st, len(v.d))
         if isinstance(v, SetVal):
@@ -311,7 +316,7 @@ def install(eng):
         if isinstance(v, (Ref, Rec)):
             return one(st, TypeVal(v.cls))
         k = 'int' if is_intlike(v) and not is_boollike(v) else 'float' if is_reallike(v) else 'bool' if is_boollike(v) \
-            else 'str' if is_strlike(v) else None
+            else 'str' if is_strlike(v) else 'bytes' if (isinstance(v, bytes) or isinstance(v, View) and v.tag == 'bytes') else None
         if k is None:
             raise Unsupported('type(%r)' % (v,))
         return one(st, TypeVal(k))
@@ -466,10 +471,112 @@ def install(eng):
                     ('py_int_ok', lambda a: PY_INT_OK(to_str_term(a[0]))), ('contains', lambda a: z3.Contains(to_str_term(a[0]), to_str_term(a[1])))):
         B[_nm] = Fn(lambda eng, st, args, kw, node, _f=_f: [(st, _f(args))], _nm)
 
+    @reg('in_re')
+    def _in_re(eng, st, args, kw, node):
+        """in_re(s, NAME): s matches the pattern literal bound to NAME in the module under verification."""
+        from . import regex as _rx
+        import ast as _ast
+        mod = None
+        for fr in eng.frames:
+            if fr.contract is not None and hasattr(fr.mod, 'assigns'):
+                mod = fr.mod
+        nd = mod.assigns[args[1]]
+        lit = nd.args[0].value
+        lit = lit if isinstance(lit, str) else lit.decode('latin-1')
+        return one(st, z3.InRe(to_str_term(args[0]), _rx.match_lang(lit)))
+
     @reg('cls_is')
     def _cls_is(eng, st, args, kw, node):
         v = args[0]
         return one(st, isinstance(v, (Ref, Rec)) and v.cls == args[1])
+
+    # ------------------------------------------------ time / datetime / re (trusted effect models: which exceptions can escape)
+    def may_raise(eng, st, node, classes):
+        for c in classes:
+            st = eng.fork_exc(st, z3.Bool(uid('ok_' + c)), c, node)
+            if st.dead:
+                return None
+        return st
+
+    @reg('time.gmtime')
+    def _gmtime(eng, st, args, kw, node):
+        eng.trusted_used.add('time.gmtime(n): returns a 9-field struct_time or raises OverflowError / OSError (out of range for the platform); '
+                             'datetime.datetime()/date()/strptime(): return a value or raise ValueError (OverflowError for integers beyond C long)')
+        st = may_raise(eng, st, node, ['OverflowError', 'OSError'])
+        if st is None:
+            return []
+        return one(st, Tup([z3.Int(uid('tm%d' % i)) for i in range(9)]))
+
+    def _dt_ctor(cls):
+        def f(eng, st, args, kw, node):
+            st2 = may_raise(eng, st, node, ['ValueError', 'OverflowError'])
+            if st2 is None:
+                return []
+            names = ['year', 'month', 'day', 'hour', 'minute', 'second', 'microsecond']
+            fields = {n: (args[i] if i < len(args) else kw.get(n, 0)) for i, n in enumerate(names)}
+            return one(st2, Rec(cls, fields))
+        return f
+    B['datetime.datetime'] = Fn(_dt_ctor('datetime'), 'datetime.datetime')
+    B['datetime.date'] = Fn(_dt_ctor('date'), 'datetime.date')
+
+    @reg('datetime.datetime.strptime')
+    def _strptime(eng, st, args, kw, node):
+        st2 = may_raise(eng, st, node, ['ValueError'])
+        if st2 is None:
+            return []
+        return one(st2, Rec('datetime', {n: z3.Int(uid(n)) for n in ('year', 'month', 'day', 'hour', 'minute', 'second', 'microsecond')}))
+
+    @reg('cls:datetime.time')
+    def _dt_time(eng, st, args, kw, node):
+        d = args[0]
+        flds = st.heap[d.oid].fields if isinstance(d, Ref) else d.fields
+        return one(st, Rec('time', {n: flds[n] for n in ('hour', 'minute', 'second', 'microsecond')}))
+
+    class RegexVal:
+        def __init__(self, pattern):
+            self.pattern = pattern
+    eng.RegexVal = RegexVal
+    RE_GROUP = z3.Function('re_group', z3.StringSort(), z3.StringSort(), z3.IntSort(), z3.StringSort())
+
+    @reg('re.compile')
+    def _re_compile(eng, st, args, kw, node):
+        if not isinstance(args[0], (str, bytes)):
+            raise Unsupported('re.compile of a symbolic pattern')
+        return one(st, RegexVal(args[0]))
+
+    @reg('cls:Match.group')
+    def _m_group(eng, st, args, kw, node):
+        m, k = args[0], args[1] if len(args) > 1 else 0
+        if isinstance(m, Ref):
+            m = Rec('Match', st.heap[m.oid].fields)
+        eng.trusted_used.add('re match groups are abstract strings re_group(pattern, subject, k); match success is the regular language of the pattern (pyvc/regex.py)')
+        return one(st, RE_GROUP(z3.StringVal(m.fields['pattern']), to_str_term(m.fields['subject']), to_int(k)))
+
+    @method('match')
+    def _re_match(eng, st, args, kw, node):
+        r, subj = args[0], args[1]
+        if not isinstance(r, RegexVal):
+            raise Unsupported('.match on %r' % (r,))
+        from . import regex as _rx
+        pat = r.pattern if isinstance(r.pattern, str) else r.pattern.decode('latin-1')
+        if not is_strlike(subj):
+            raise Unsupported('regex match on a non-string')
+        ok = z3.InRe(to_str_term(subj), _rx.match_lang(pat))
+        return one(st, Opt(z3.Not(ok), Rec('Match', {'pattern': pat, 'subject': subj})))
+
+    @method('index')
+    def _seq_index(eng, st, args, kw, node):
+        v, x = as_view(args[0]), args[1]
+        if not is_conc_int(v.length):
+            raise Unsupported('.index on a symbolic sequence')
+        eqs = [simp(v_eq(v.get(i), x)) for i in range(v.length)]
+        st = eng.fork_exc(st, simp(b_or(*eqs)), 'ValueError', node)
+        if st.dead:
+            return []
+        r = v.length - 1
+        for i in range(v.length - 2, -1, -1):
+            r = v_ite(eqs[i], i, r)
+        return one(st, r)
 
     @reg('functools.partial')
     def _partial(eng, st, args, kw, node):
